@@ -14,3 +14,17 @@ Print Assumptions C20_szdd_decompress_callbacks_ok.
 Theorem C20_szdd_open_extract_close_callbacks_ok : forall (o : oracle) junk fuel, bad (snd (run o mon0 (script_open_extract junk fuel))) = false.
 Proof. intros o junk fuel. apply (szdd_script_open_extract_clean o junk fuel). Qed.
 Print Assumptions C20_szdd_open_extract_close_callbacks_ok.
+
+From MSP Require Import L2.Kwaj Proofs.KwajLedger.
+Theorem C20_kwaj_decompress_callbacks_ok : forall junk fuel (lzh mszip : handle -> handle -> prog N),
+  (forall L R W fh oh, fh ∈ R -> oh ∈ W -> triple (st L R W) (lzh fh oh) (fun _ => st L R W)) ->
+  (forall L R W fh oh, fh ∈ R -> oh ∈ W -> triple (st L R W) (mszip fh oh) (fun _ => st L R W)) ->
+  forall o : oracle, bad (snd (run o mon0 (kscript_decompress junk fuel lzh mszip))) = false.
+Proof. intros junk fuel lzh mszip H1 H2 o. apply (kwaj_script_decompress_clean junk fuel lzh mszip H1 H2 o). Qed.
+Theorem C20_kwaj_open_extract_close_callbacks_ok : forall junk fuel (lzh mszip : handle -> handle -> prog N),
+  (forall L R W fh oh, fh ∈ R -> oh ∈ W -> triple (st L R W) (lzh fh oh) (fun _ => st L R W)) ->
+  (forall L R W fh oh, fh ∈ R -> oh ∈ W -> triple (st L R W) (mszip fh oh) (fun _ => st L R W)) ->
+  forall o : oracle, bad (snd (run o mon0 (kscript_open_extract junk fuel lzh mszip))) = false.
+Proof. intros junk fuel lzh mszip H1 H2 o. apply (kwaj_script_open_extract_clean junk fuel lzh mszip H1 H2 o). Qed.
+Print Assumptions C20_kwaj_decompress_callbacks_ok.
+Print Assumptions C20_kwaj_open_extract_close_callbacks_ok.
